@@ -29,7 +29,6 @@ End MapButLast.
 (* [mutg true] = the tree after generate_lingo, [mutg false] = after generate_js *)
 Fixpoint mutg (ml : bool) (n : node) {struct n} : node :=
   match n with
-  | Leaf KSymbol name p flag => Leaf KSymbol name p (if ml && mem_str name CONST_KNOWN_SYMBOLS then false else flag)
   | Leaf _ _ _ _ => n
   | Unary nm p o => Unary nm p (mutg ml o)
   | Binary nm p l r => Binary nm p (mutg ml l) (mutg ml r)
